@@ -14,6 +14,10 @@ type Types struct {
 	U      *am.Universe
 	named  map[string]*types.StructType
 	guards []guard
+	// Share makes equal literal types one Go object (a program that keeps `i32ptr := types.NewPointer(types.I32)`
+	// in a variable and uses it everywhere), instead of a fresh object per use.
+	Share bool
+	tmemo map[string]types.Type
 }
 
 // NewTypes returns an instantiator for the universe u.
@@ -55,6 +59,22 @@ var floatKinds = map[string]types.FloatKind{
 
 // Type returns a fresh llir type for t (identified structs are shared within ts).
 func (ts *Types) Type(t *am.Type) types.Type {
+	if !ts.Share || t.K == am.Named {
+		return ts.fresh(t)
+	}
+	key := t.String()
+	if x, ok := ts.tmemo[key]; ok {
+		return x
+	}
+	x := ts.fresh(t)
+	if ts.tmemo == nil {
+		ts.tmemo = map[string]types.Type{}
+	}
+	ts.tmemo[key] = x
+	return x
+}
+
+func (ts *Types) fresh(t *am.Type) types.Type {
 	switch t.K {
 	case am.Void:
 		return &types.VoidType{}
